@@ -8,7 +8,7 @@
   Python fragment (`Expr`, one free variable = the lambda parameter):
     literals, comparisons (chains are desugared by the translator into `and`: all operands are
     pure), `and / or / not` with Python truthiness and operand-returning semantics, `%`, `&`,
-    `x in (…)` / `common.is_method(x, […])`, `x is None`, `np.isnan(x)`, `np.isscalar(x)`.
+    `x in (…)` / `common.is_method(x, […])`, `x is None`, `np.isnan(x)`, `np.isscalar(x)`, `len(x)`.
   `eval` returns `none` where Python raises `TypeError`/`ValueError` (which `json_checker` turns
   into a validation error).  Comparisons and `%` are only translated when one operand is a numeric
   literal, so "the other operand is not a number" is exactly where Python raises.
@@ -103,6 +103,7 @@ inductive Expr where
   | isNone (a : Expr)
   | npIsnan (a : Expr)
   | npIsscalar (a : Expr)
+  | len (a : Expr)
   deriving Repr, Inhabited, DecidableEq
 
 /-- Python truthiness -/
@@ -260,6 +261,13 @@ def eval (x : JVal) : Expr → Option JVal
     match eval x a with
     | none => none
     | some va => some (.bool (npIsscalarVal va))
+  | .len a =>
+    match eval x a with
+    | none => none
+    | some (.str s) => some (.int s.length)
+    | some (.list l) => some (.int l.length)
+    | some (.obj kvs) => some (.int kvs.length)
+    | some _ => none                       -- `len` of a number or `None`: TypeError
 
 /-- `FunctionChecker`: the value passes iff the function returns something truthy without raising -/
 def holds (e : Expr) (x : JVal) : Bool :=
